@@ -63,6 +63,7 @@ type Struct[T any, G StructProcesor[T]] struct {
 	value                        T
 	err                          error
 	depVersions                  []int
+	depStates                    []NodeState
 	inputChangedSinceLastProcess bool
 
 	version int
@@ -113,7 +114,9 @@ func (sn Struct[T, G]) Outdated() bool {
 
 	for i, nodeDep := range deps {
 		dep := nodeDep.Dependency()
-		if dep.Version() != sn.depVersions[i] || dep.State() != Processed {
+		// Compare with what was seen when we last processed: a dependency
+		// our processing never read stays stale without us being outdated
+		if dep.Version() != sn.depVersions[i] || dep.State() != sn.depStates[i] {
 			return true
 		}
 	}
@@ -124,8 +127,10 @@ func (sn Struct[T, G]) Outdated() bool {
 func (sn *Struct[T, G]) updateUsedDependencyVersions() {
 	deps := sn.Dependencies()
 	sn.depVersions = make([]int, len(deps))
+	sn.depStates = make([]NodeState, len(deps))
 	for i, dep := range deps {
 		sn.depVersions[i] = dep.Dependency().Version()
+		sn.depStates[i] = dep.Dependency().State()
 	}
 }
 
